@@ -947,6 +947,10 @@ static std::vector<TTask> tecmpTasks(bool thorough, bool forSafety)
     std::vector<TTask> t;
     for (int n = 0; n <= 64; ++n)
         t.push_back({'C', n, 0});
+    // length bytes above the CAN-FD maximum WITH that many bytes present (consistent, though no bus can produce them): whatever the
+    // converter makes of them must stay within its own bytes
+    for (int n : {65, 66, 100, 127, 128, 200, 250})
+        t.push_back({'C', n, 0});
     for (int n = 0; n <= (thorough ? 64 : 8); ++n)
         t.push_back({'L', n, 0});
     t.push_back({'M', 0, 0});
@@ -1212,6 +1216,21 @@ static void c03Buffers(int cls, size_t len, Fn fn)
                     }
                 }
     }
+}
+
+// TECMP frame through a real decoder: typed views of every valid packet in bounds
+static void judgeC03Tecmp(W& w, const Bytes& f)
+{
+    Buf b;
+    b.base = f;
+    Decoder d;
+    Decoded r = decodeExact(d, b);
+    w.add(mc::C_TRANS, 1);
+    uint64_t oh = r.packets.size();
+    for (auto& p : r.packets)
+        if (p && p->isValid())
+            oh = mc::mix(oh, sweepTyped(w, p->getPayload(), p->getPayload().getType().getType()));
+    w.outcome(oh);
 }
 
 // message-level: isValidPacket(buf, n) => Packet(type, buf, n) constructs without reading past the end
@@ -1510,6 +1529,8 @@ int main(int argc, char** argv)
             auto kv = mc::kv_parse(cs);
             if (kv.count("mt"))
                 judgeC03Packet(w, (uint8_t) strtoul(kv["mt"].c_str(), nullptr, 16), mc::unhex(kv["m"]));
+            else if (kv.count("tf"))
+                judgeC03Tecmp(w, mc::unhex(kv["tf"]));
             else
                 judgeC03(w, atoi(kv["cls"].c_str()), kv["b"] == "-" ? Bytes{} : mc::unhex(kv["b"]));
         };
@@ -1531,6 +1552,21 @@ int main(int argc, char** argv)
                 w.add(mc::C_STATES, 1);
             });
         });
+        // packets a decoder returns as valid from TECMP frames are built by the converter through the payload builders, not from
+        // a validated buffer: their views must lie in their own bytes all the same
+        {
+            auto tt = tecmpTasks(thorough, true);
+            run.round("TECMP frames (C15 generators incl. lying length bytes) through the decoder: views of every valid returned packet", tt.size(), [&, tt](W& w, uint64_t o) {
+                tecmpEnumerate(tt[o], thorough, [&](const Bytes& f) {
+                    auto desc = [&] { return "tf=" + mc::hex(f); };
+                    if (!w.begin_case(desc))
+                        return;
+                    judgeC03Tecmp(w, f);
+                    w.add(mc::C_TRACES, 1);
+                    w.add(mc::C_STATES, 1);
+                });
+            });
+        }
         // message level
         run.round("message level: isValidPacket(buf) => Packet(type, buf): buffer length 0..48 x declared length x flags x payload type x frame message type", 49,
                   [&](W& w, uint64_t o) {
